@@ -139,6 +139,15 @@ def corner_shapes(twosided_only=False):
         [[[2], [1, 3]], [[1, 2, 3]], [[3], [2], [1]]])
     add(3, 4, 2, 2, [[[1], [2]], [[1], [2]], [[2], [1]], [[1, 2]]], [1, 2],
         [[[1], [2, 3], [4]], [[4, 3], [2], [1]]])
+    # identifiers with two digits: 12 projects / 11 students; ties opened and closed by two-digit ids; the pairs
+    # (1,12) and (11,2) (names that collide without a separator)
+    add(3, 3, 12, 3, [[[12, 3], [10]], [[2], [11, 12]], [[10], [1]]], [1, 2, 3, 1, 2, 3, 1, 2, 3, 1, 2, 3],
+        [[[2], [1, 3]], [[2]], [[1, 2]]])
+    add(2, 11, 12, 12, [[[12], [1]]] + [[[1]] for _ in range(9)] + [[[2], [12]]], list(range(1, 13)),
+        [[[11, 10], [1], [2, 3, 4, 5, 6, 7, 8, 9]], [[11]]] + [[] for _ in range(9)] + [[[1], [11]]])
+    # a student who finds no project acceptable (empty first-side list), first and last in the file
+    add(3, 3, 2, 2, [[], [[1], [2]], [[2, 1]]], [1, 2], [[[3], [2]], [[2, 3]]])
+    add(2, 2, 2, 2, [[[2], [1]], []], [1, 2], [[[1]], [[1]]])
     if twosided_only:
         out = [s for s in out if s.lprefs is not None]
     return out
